@@ -418,3 +418,67 @@ func VerifMergeCreateZipFile() {
 		return MergeCreateZipFile(w.inFile, w.dir+"/in2.pdf", w.outFile, &model.Configuration{})
 	})
 }
+
+// VerifWriteAttachments (C01, attachment extraction): writeAttachments with two attachments whose names
+// are drawn from {a.txt, b.txt, a 220-byte name whose reservation name exceeds NAME_MAX}, possibly
+// equal (collision), an output directory in which a.txt may pre-exist, symbolic data, and one injected
+// failure at a solver-chosen call of the staged-output operation table. Afterwards - success or not -
+// no hidden reservation or staging name remains, a pre-existing file holds its complete old or a
+// complete new content, and every other visible file is the complete data of an attachment of that name.
+//
+//verif:stub github.com/pdfcpu/pdfcpu/pkg/api.defaultFileOperations=verifTxFileOps
+func VerifWriteAttachments() {
+	dir, err := os.MkdirTemp("", "verifc01att")
+	verifMust(err)
+	long := strings.Repeat("x", 220)
+	pool := []string{"a.txt", "b.txt", long}
+	oldA := "OLD-" + vp.String(1)
+	hadA := vp.Bool()
+	if hadA {
+		verifMust(os.WriteFile(dir+"/a.txt", []byte(oldA), 0o644))
+	}
+	var aa []model.Attachment
+	var data []string
+	for i := 0; i < 2; i++ {
+		name := pool[vp.Choice(len(pool))]
+		d := "DATA" + string(rune('1'+i)) + "-" + vp.String(1)
+		data = append(data, d)
+		aa = append(aa, model.Attachment{Reader: strings.NewReader(d), ID: "id" + string(rune('1'+i)), FileName: name})
+	}
+	verifTx = &verifTxPlan{}
+	if vp.Bool() {
+		verifTx.failAt[0] = vp.IntIn(1, vp.Bound("CALLS"))
+	}
+	err = writeAttachments(dir, aa)
+	for _, n := range verifListing(dir) {
+		if strings.HasPrefix(n, ".") {
+			// only a file whose own removal was the injected failure can stay behind
+			excused := false
+			for _, st := range verifTx.failedStep {
+				excused = excused || st == "remove "+dir+"/"+n
+			}
+			vp.Assert(excused, "attachment extraction left a hidden reservation or staging file behind")
+			continue
+		}
+		b, rerr := os.ReadFile(dir + "/" + n)
+		vp.Assert(rerr == nil, "attachment extraction left an unreadable entry behind")
+		ok := n == "a.txt" && hadA && string(b) == oldA
+		for i, a := range aa {
+			ok = ok || (a.FileName == n && string(b) == data[i])
+		}
+		vp.Assert(ok, "a file in the output directory holds neither its previous content nor the complete data of an attachment of that name")
+	}
+	if err == nil {
+		vp.Assert(verifTx.failed == 0, "attachment extraction reported success although a file system call failed")
+		for i, a := range aa {
+			b, rerr := os.ReadFile(dir + "/" + a.FileName)
+			vp.Assert(rerr == nil && string(b) == data[i], "attachment extraction reported success but an attachment was not written completely")
+		}
+	} else if hadA && verifTx.failed == 0 && aa[0].FileName != "a.txt" && aa[1].FileName != "a.txt" {
+		b, rerr := os.ReadFile(dir + "/a.txt")
+		vp.Assert(rerr == nil && string(b) == oldA, "failed attachment extraction modified an unrelated pre-existing file")
+	}
+	if !vp.Symbolic() {
+		os.RemoveAll(dir)
+	}
+}
